@@ -73,8 +73,8 @@ fn main() {
 }
 '''
 
-FAST_ARM = {"cubic": "Cubic", "septic": "Septic", "quintic": "Quintic", "linear": "Linear", "nearest": "Nearest"}
-SINC_ARM = {"cubic": "Cubic", "quadratic": "Quadratic", "linear": "Linear", "nearest": "Nearest", "set_chunk_size": "Linear"}
+FAST_ARM = {"wide_range": "Linear", "cubic": "Cubic", "septic": "Septic", "quintic": "Quintic", "linear": "Linear", "nearest": "Nearest"}
+SINC_ARM = {"wide_range": "Linear", "cubic": "Cubic", "quadratic": "Quadratic", "linear": "Linear", "nearest": "Nearest", "set_chunk_size": "Linear"}
 
 
 def program(name):
@@ -97,7 +97,12 @@ def program(name):
         adj, chunk = "false", "false"
     else:
         return None
-    return PROGRAM.replace("@BUILD@", build).replace("@ADJ@", adj).replace("@CHUNK@", chunk)
+    prog = PROGRAM
+    if arm == "wide_range":
+        # the wide history of the harness: max 8, chunk 2, step to 1/8, ramp back to the original ratio
+        build = build.replace("1.0, 4.0,", "1.0, 8.0,").replace(", 3, 1).unwrap()", ", 2, 1).unwrap()")
+        prog = prog.replace("set_resample_ratio_relative(0.25, false)", "set_resample_ratio_relative(0.125, false)").replace("set_resample_ratio(4.0, true)", "set_resample_ratio(1.0, true)")
+    return prog.replace("@BUILD@", build).replace("@ADJ@", adj).replace("@CHUNK@", chunk)
 
 
 def replay(scratch, ob):
@@ -108,7 +113,10 @@ def replay(scratch, ob):
     rc, out = native.run_program(scratch, "c09", prog)
     if "error: could not compile" in out or "error[E" in out:
         return None, "replay program did not build: " + out[-600:]
-    tail = " | ".join(l for l in out.strip().splitlines()[-8:] if l.strip())[:900]
+    mine = [l.strip() for l in out.splitlines() if l.strip().startswith(("heap traffic during", "valid history:"))]
+    tail = " | ".join(mine[-8:])[:900]
+    if not any(l.startswith("valid history:") for l in mine):
+        return None, "replay program did not run to its end (rc=%s): %s" % (rc, " | ".join(out.strip().splitlines()[-4:])[:500])
     cex = {"history": "the harness's concrete history through the public API (see vlib/replay_c09.py)", "program_output": tail}
     if rc == 1:
         return cex, "reproduced on the real code (counting #[global_allocator], public API): " + tail
